@@ -397,6 +397,27 @@ pub fn corpus(dir: &str, tier: &str) {
             files.push((64, f));
         }
     }
+    // lines around the printer's internal write-buffer capacity (2056 bytes): short head + long
+    // continuation, long head, long line between short ones, several long lines in a row
+    let lens: &[usize] = &[2000, 2055, 2056, 2057, 2100, 4112, 4113, 6200];
+    for (k, &l) in lens.iter().enumerate() {
+        let mk = |body: usize, cont: Vec<usize>, j: usize| MsgSpec {
+            ms: (EPOCH_2000 + j as i64) * 1000,
+            body: { let mut b = vec![b' ']; b.extend(fill(body, j + k)); b },
+            cont: cont.iter().enumerate().map(|(q, n)| fill(*n, q + j + k)).collect(),
+        };
+        let shapes: Vec<Vec<MsgSpec>> = vec![
+            vec![mk(3, vec![l], 0)],
+            vec![mk(l, vec![], 0)],
+            vec![mk(3, vec![5, l, 7], 0), mk(4, vec![], 1)],
+            vec![mk(3, vec![l, l], 0), mk(l, vec![l], 1)],
+            vec![mk(3, vec![], 0), mk(3, vec![l], 1), mk(3, vec![], 2)],
+        ];
+        for sh in shapes {
+            files.push((1024, build(&[], &sh, b"\n", true)));
+            files.push((4096, build(&[], &sh, b"\n", false)));
+        }
+    }
     let mut idx = vec![];
     for (i, (bsz0, f)) in files.iter().enumerate() {
         let name = format!("c{:05}.log", i);
